@@ -216,6 +216,17 @@ def atoms_are_ids(fi, ae: ast.AST):
         if isinstance(e, ast.Call) and call_name(e) in ("tuple", "list") \
                 and e.args:
             return ok(e.args[0], depth + 1)
+        if isinstance(e, ast.Call) and call_name(e) in ("max", "min") \
+                and e.args and not any(isinstance(a, ast.Starred)
+                                       for a in e.args):
+            # selects one of the candidates: every candidate must qualify
+            if len(e.args) == 1:
+                return ok(e.args[0], depth + 1)
+            for a in e.args:
+                r = ok(a, depth + 1)
+                if not r[0]:
+                    return r
+            return True, ""
         if isinstance(e, ast.Constant) and e.value is None:
             return True, ""
         if isinstance(e, ast.IfExp):
